@@ -196,6 +196,7 @@ type vfWorld struct {
 	pendingMods   []string // request modifiers of the step being prepared (precookie:, fwd:, peer:)
 	listenerUp    chan struct{} // closed when the emulated main() received SignerIsReady (the service listener starts then)
 	readySignals  atomic.Int32
+	latePublishes atomic.Int32
 	stdinFile     *os.File
 }
 
@@ -398,6 +399,7 @@ func (w *vfWorld) build() error {
 	vfhook.CheckLDAPConnection = w.dirsim.checkConnection
 	vfhook.GetLDAPUserGroups = w.dirsim.getGroups
 	vfhook.GetLDAPUserAttributes = w.dirsim.getAttributes
+	vfhook.EventPublishCert = nil
 	vfhook.VipValidateUserOTP = w.vipsim.validateOTP
 	vfhook.VipStartUserVIPPush = w.vipsim.startPush
 	vfhook.VipPushHasBeenApproved = w.vipsim.pushApproved
